@@ -64,6 +64,41 @@ structure Cfg where
 def Cfg.pinned : Cfg := { skipEmptyFamily := false, keepMalformed := false, unescapeNames := false }
 def Cfg.fixed : Cfg := { skipEmptyFamily := true, keepMalformed := true, unescapeNames := true }
 
+/-! ### `str::trim` on UTF-8 bytes
+The agent's readers trim the text of token-valued leaves (`<family>` …, fetch.rs:536-541 `trimmed`)
+with `str::trim`, i.e. by Unicode `White_Space`. On the byte representation used here that is: strip
+the UTF-8 encodings of the 25 `White_Space` code points from both ends (UTF-8 is prefix-free and
+self-synchronising, so on well-formed text this is the same as trimming characters). -/
+
+/-- UTF-8 encodings of U+0009..U+000D, U+0020, U+0085, U+00A0, U+1680, U+2000..U+200A, U+2028, U+2029,
+U+202F, U+205F, U+3000 (Rust `char::is_whitespace`) -/
+def wsEncodings : List Str :=
+  [[9], [10], [11], [12], [13], [32], [194, 133], [194, 160], [225, 154, 128],
+   [226, 128, 128], [226, 128, 129], [226, 128, 130], [226, 128, 131], [226, 128, 132], [226, 128, 133],
+   [226, 128, 134], [226, 128, 135], [226, 128, 136], [226, 128, 137], [226, 128, 138],
+   [226, 128, 168], [226, 128, 169], [226, 128, 175], [226, 129, 159], [227, 128, 128]]
+
+def stripPrefixB : (p s : Str) → Option Str
+  | [], s => some s
+  | _ :: _, [] => none
+  | a :: p, b :: s => if a = b then stripPrefixB p s else none
+
+/-- the rest of `s` after one leading whitespace character, if it starts with one -/
+def stripWs (encs : List Str) (s : Str) : Option Str :=
+  encs.findSome? fun e => stripPrefixB e s
+
+def trimStartWith (encs : List Str) : (fuel : Nat) → Str → Str
+  | 0, s => s
+  | fuel + 1, s =>
+    match stripWs encs s with
+    | some r => trimStartWith encs fuel r
+    | none => s
+
+def trimStartB (s : Str) : Str := trimStartWith wsEncodings s.length s
+def trimEndB (s : Str) : Str := (trimStartWith (wsEncodings.map List.reverse) s.length s.reverse).reverse
+/-- Rust `str::trim` on UTF-8 bytes -/
+def trimB (s : Str) : Str := trimEndB (trimStartB s)
+
 /-! ### association lists (`HashMap<Name, T>`; Junos' keyed lists) -/
 
 def keys {α} (l : List (Str × α)) : List Str := l.map (·.1)
